@@ -58,7 +58,7 @@ theorem prop_select2 {name : Str} {f : CField} (hname : isIdent name = true) (ff
       (vs := [freshMsg sField, sStr name, .absent, .absent, .absent, .absent]) (i := 0) (a := e) rfl h2'
     rw [List.append_assoc] at h
     exact h
-  exact buildScope_keep (combinePath_ident (kind_ascii f) [b!"schema"])
+  exact buildScope_keep_run (combinePath_ident (kind_ascii f) [b!"schema"])
     (walkScope_cons h1 (walkScope_cons h2 (walkScope_nil _ _ _)))
 
 /-- how the body lines of a directly typed property reach the type block: through the property node -/
